@@ -295,3 +295,10 @@ def h3(ctx: Ctx) -> None:
     from .c02 import r1 as comparator_rule
 
     comparator_rule(ctx)
+
+
+@rule("C01.H4", "mechanism shared with C02: the acceptance time that decides which order of a pair was resting is stamped once, when the order enters the book (only Market._add_order calls OrderBook.add; sort keys are not rewritten afterwards)", "T2 who-may-call + T1 (same rule as C02.R3)", floor=5)
+def h4(ctx: Ctx) -> None:
+    from .c02 import r3 as enter_once_rule
+
+    enter_once_rule(ctx)
